@@ -51,7 +51,7 @@ CHECKS.update({
         ref='DESIGN.md §5 C07'),
     'C08': dict(
         technique='static analysis: typestate temp -> closed -> renamed on enumerated paths; who-may-open/rename census of the writer modules; reader-side name agreement',
-        text='Decides that the only file opened for writing by the checkpoint writer is <final>+constant non-empty suffix, that the single rename maps exactly that temp name to the final name, after close, after the complete resource loop and never from except/finally, and that the reader tests and opens the final name only. Power-loss durability is not decided.',
+        text='Decides that the only file opened for writing by the checkpoint writer is <final>+constant non-empty suffix, that the single rename maps exactly that temp name to the final name, after close, after the complete resource loop and never from except/finally, and that the reader tests and opens the final name only; the driver stops pulling at the first failure (no swallowing handler in the driver module). Power-loss durability is not decided.',
         note='LF6 (rename atomicity on POSIX).',
         ref='DESIGN.md §5 C08'),
     'C09': dict(
@@ -66,12 +66,12 @@ CHECKS.update({
         ref='DESIGN.md §5 C11'),
     'C12': dict(
         technique='static analysis: def-use of the storage key on the enumerate index, option-flow of reverse/batch_size, width-domain abstract evaluation of the key expression',
-        text='Decides structure only: every row stored under sort key + fixed-width row number and yielded once, reverse/batch_size reach only their sinks and not the key, shape of the numeric encoding, and (R22) that a variable-width key component is last or separated. Correctness of the order itself on values is NOT decided.',
+        text='Decides structure only: every row stored under sort key + fixed-width row number and yielded once, the output loop over the store is the only delivery path, reverse/batch_size reach only their sinks and not the key, shape of the numeric encoding, and (R22) that a variable-width key component is last or separated. Correctness of the order itself on values is NOT decided.',
         note='Known findings: key followed by row number without separator; multi-field keys concatenated without separator. LF5.',
         ref='DESIGN.md §5 C12'),
     'C13': dict(
         technique='static analysis: option-guarded wrapper installation per flag valuation, row-loop shapes, raise-or-rename path signature, strategy tables, selection agreement and consumption of skipped iterators',
-        text='Decides structure only: wrappers applied exactly when their option is set, limiter shape (init 0, yield, increment, break on >=), stripper/stringer/extractor shapes, duplicate headers raise unless de-duplication requested, strategy tables, equal selection of descriptors and iterators including draining skipped iterators. CSV fidelity and inference are NOT decided.',
+        text='Decides structure only: wrappers applied exactly when their option is set and in the order extract-missing, cast, strip, limit, limiter shape (init 0, yield, increment, break on >=), stripper/stringer/extractor shapes, duplicate headers raise unless de-duplication requested, strategy tables, equal selection of descriptors and iterators including draining skipped iterators. CSV fidelity and inference are NOT decided.',
         note='tabulator semantics trusted.',
         ref='DESIGN.md §5 C13'),
     'C14': dict(
@@ -106,7 +106,7 @@ CHECKS.update({
         ref='DESIGN.md §5 C19'),
     'C20': dict(
         technique='static analysis: guarded path signature of process_resource over {mapped, rewrite&exists, exists, update}, option flow into storage.write, row-loop shape of the downstream rows',
-        text='Decides structure only: delete iff rewrite and exists, create iff absent, update keys iff update mode defaulting to the primary key, options reach the writer, downstream rows are the written rows with truthful optional flags. Table contents (tableschema-sql semantics) and dump histories are NOT decided.',
+        text='Decides structure only: delete iff rewrite and exists, create iff absent, decided on a Storage created when the resource is processed, update keys iff update mode defaulting to the primary key, options reach the writer, downstream rows are the written rows with truthful optional flags. Table contents (tableschema-sql semantics) and dump histories are NOT decided.',
         note='Known finding: array/object values are rewritten in place in rows that continue downstream.',
         ref='DESIGN.md §5 C20'),
 })
